@@ -415,8 +415,9 @@ ReadBody(t, attrs, items) ==
         IF attrs = <<>> /\ Len(items) = 1 /\ ~items[1].slot THEN Read(t, items[1].v)
         ELSE IF t.c = "opt" /\ attrs = <<>> /\ items = <<>> THEN Ok(NoneI) ELSE Fail
     ELSE IF t.c = "prim" /\ t.p = "value" THEN
-        \* DelegateBodyMaterializer: a single value item is that value
-        IF attrs = <<>> /\ Len(items) = 1 /\ ~items[1].slot THEN Ok(items[1].v) ELSE Ok(Rec(attrs, items))
+        \* DelegateBodyMaterializer: a single value item is that value, an empty body is extant
+        IF attrs = <<>> /\ Len(items) = 1 /\ ~items[1].slot THEN Ok(items[1].v)
+        ELSE IF attrs = <<>> /\ items = <<>> THEN Ok(Extant) ELSE Ok(Rec(attrs, items))
     ELSE Read(t, Rec(attrs, items))
 
 ReadStruct(tag, fields, v) ==
@@ -516,7 +517,8 @@ ReadKey(key, v) == ReadDesc(TypeOf(key), v)
 (*   d    parse_recognize::<T>(s) accepted,   vd = id of the value         *)
 (*   m    parse |> try_from_value accepted,   vm = id of the value         *)
 (*   c    parse |> try_convert accepted,      vc = id of the value         *)
-(*   isx  the text is a printer's output for the instance with id vx       *)
+(*   isx  the text is a printer's output for the instance with id vx and   *)
+(*        the parser's model of it is as_value of that instance            *)
 (***************************************************************************)
 LawModelRoundTrip(r) == r.rt /\ r.rt_eq /\ r.rtc /\ r.rtc_eq
 LawMsgPackRoundTrip(r) == r.mp /\ r.mp_eq
@@ -527,7 +529,8 @@ LawPathsAgree(r) == r.p => /\ r.d = r.m
 LawConvertAgrees(r) == r.p => (r.c = r.m /\ (r.c => r.vc = r.vm))
 \* a text no model value can be parsed from is accepted by neither path
 LawUnparseable(r) == ~r.p => ~r.d
-\* the text printed for a value reads back as that value, on both paths
+\* the text printed for a value reads back as that value, on both paths (a consequence of the
+\* model round trip and of the agreement of the paths when the text's model is as_value(x))
 LawPrinted(r) == r.isx => (r.p /\ r.d /\ r.m /\ r.vd = r.vx /\ r.vm = r.vx)
 LawDocument(r) == LawPathsAgree(r) /\ LawConvertAgrees(r) /\ LawUnparseable(r) /\ LawPrinted(r)
 
